@@ -107,7 +107,16 @@ class Plan(object):
         P = info.parameters
         self.call = list(P.call_parameters)
         self.by_name = {p.name: p for p in self.call}
-        self.size = [p.name for p in self.call if p.name in P.pd_1d][:2]
+        # dispersible size parameters, stated from the parameter table itself (type 'volume', dispersible) and NOT from
+        # ParameterTable.pd_1d/pd_2d, which is part of the mechanism under test
+        sizes = [p.name for p in self.call if p.type == "volume" and p.polydisperse]
+        vec_ids = [p.id for p in P.kernel_parameters if p.length > 1 and p.type == "volume" and p.polydisperse]
+        first_vec = next((n for n in sizes if any(n == v + "1" for v in vec_ids)), None)
+        self.size = sizes[:2]
+        if first_vec is not None and first_vec not in self.size:
+            self.size = sizes[:1] + [first_vec]       # multiplicity models: one dispersed parameter is a vector element
+        self.vector_sizes = [(p.id, p.length) for p in P.kernel_parameters
+                             if p.length > 1 and p.type == "volume" and p.polydisperse]
         self.orient = next((p.name for p in self.call if p.type == "orientation"), None)
         self.python = callable(info.Iq)
         self.magnetic = P.nmagnetic > 0 and not self.python
@@ -120,13 +129,16 @@ class Plan(object):
         self.vector_slds = [(p.id, p.length) for p in P.kernel_parameters if p.length > 1 and p.type == "sld"]
 
     def control_values(self):
-        """multiplicities used: the default, default+1, default+3 (inside the limits)"""
+        """multiplicities used: the lower limit (0 where allowed), the default, default+1, default+3, the upper limit"""
         p = self.control
         if p is None:
             return []
         lo, hi = int(p.limits[0]), int(p.limits[1])
         d = int(p.default)
-        return [v for v in (d, d + 1, d + 3) if lo <= v <= hi]
+        return sorted(set(v for v in (lo, d, d + 1, d + 3, hi) if lo <= v <= hi))
+
+    def control_limits(self):
+        return int(self.control.limits[0]), int(self.control.limits[1])
 
     def in_use(self, mult):
         """multiplicity in effect for a cfg 'mult' entry"""
@@ -195,7 +207,9 @@ def _dims(pl, ctx):
         dims.append(("magnetic", False, [True] + (["last"] if pl.vector_slds else [])))
     if pl.control is not None:
         vals = pl.control_values()
-        dims.append(("mult", None, [["ctor", v] for v in vals] + [["param", v] for v in vals[-1:]]))
+        lo, hi = pl.control_limits()
+        dims.append(("mult", None, [["ctor", v] for v in vals]
+                     + [["param", v] for v in sorted(set([lo, vals[len(vals) // 2], hi]))]))
     dims.append(("svmode", "setParam", ["set_dispersion", "array"]))
     return dims
 
@@ -225,6 +239,16 @@ def cases(ctx):
                         for how in ("ctor", "param"):
                             out.append({"kind": "eq", "model": m,
                                         "cfg": dict(base, q="2d", mult=[how, n], magnetic=["elem", vid + str(k)])})
+        # dispersity family: every element in use of every dispersible vector size parameter (thicknessK, interfaceK),
+        # for every multiplicity used, both ways of giving the multiplicity, all interfaces, 1-D
+        if pl.control is not None and pl.vector_sizes:
+            base = {d[0]: d[1] for d in dims}
+            for n in pl.control_values():
+                for vid, length in pl.vector_sizes:
+                    for k in range(1, min(n, length) + 1):
+                        for how in ("ctor", "param"):
+                            out.append({"kind": "eq", "model": m,
+                                        "cfg": dict(base, mult=[how, n], pdx=[vid + str(k), ["schulz", 4, 0.3, 3.0]])})
     for m in (SEL_MODELS_QUICK if ctx.quick else SEL_MODELS_THOROUGH):
         for dk in ("plain", "dx0", "dx", "dxmix", "slit", "2d", "2dres"):
             for n in (4, 50):
@@ -283,6 +307,11 @@ def settings_for(pl, cfg):
             if alt is None:
                 continue
             cut1 = True
+        pd[name] = tuple(alt)
+    if cfg.get("pdx"):
+        name, alt = cfg["pdx"]
+        if name not in pl.by_name:
+            raise HarnessError("%s: no parameter %r" % (pl.name, name))
         pd[name] = tuple(alt)
     mult = cfg.get("mult")
     if mult:
@@ -478,6 +507,15 @@ def _run_eq(case, ctx):
         br.append("single-point-truncation")
     if st["mult"]:
         br.append("multiplicity-" + st["mult"][0])
+        lo, hi = pl.control_limits()
+        if st["mult"][1] == lo:
+            br.append("multiplicity-lower-limit:" + st["mult"][0] + (":zero" if lo == 0 else ""))
+        if st["mult"][1] == hi:
+            br.append("multiplicity-upper-limit:" + st["mult"][0])
+    if any(name == vid + str(k) for name in st["pd"] for vid, length in pl.vector_sizes for k in range(1, length + 1)):
+        br.append("dispersed-vector-element")
+        if st["mult"] and any(name == vid + str(st["mult"][1]) for name in st["pd"] for vid, _ in pl.vector_sizes):
+            br.append("dispersed-last-vector-element-in-use")
     if cfg.get("common") == "omitted":
         br.append("scale-background-defaulted")
     if pl.structure:
@@ -951,6 +989,8 @@ def _name_sets(r, pl, mods, kernel2d):
             if base not in hidden:
                 expected.add(us_name)
         br = ["name-set-checked", "name-set-multiplicity-%s" % ("none" if n is None else "ctor")]
+        if n == 0:
+            br.append("name-set-multiplicity-zero")
         wrong = sorted((expected - taken) | (taken - expected))
         if not wrong:
             r.ok(nt=n is not None, outcome="name-set:%d" % min(len(taken), 9), branches=br, n=1)
@@ -1197,6 +1237,13 @@ def finish(ctx, report):
     report.require("legitimate-accepted", 10, "legitimate names accepted")
     report.require("magnetic-last-element-in-use:ctor", 6, "magnetism on the last vector element in use, multiplicity constructor")
     report.require("magnetic-last-element-in-use:param", 6, "magnetism on the last vector element in use, control parameter")
+    report.require("multiplicity-lower-limit:ctor:zero", 10, "multiplicity 0 through the constructor")
+    report.require("multiplicity-lower-limit:param:zero", 10, "multiplicity 0 through the control parameter")
+    report.require("multiplicity-upper-limit:ctor", 10, "largest multiplicity through the constructor")
+    report.require("multiplicity-upper-limit:param", 10, "largest multiplicity through the control parameter")
+    report.require("dispersed-vector-element", 50, "dispersity on an expanded vector element (thicknessK ...)")
+    report.require("dispersed-last-vector-element-in-use", 10, "dispersity on the last vector element in use")
+    report.require("name-set-multiplicity-zero", 2, "accepted-name sets of a multiplicity-0 object")
     report.require("name-set-checked", 16, "accepted-name sets compared")
     report.require("name-set-multiplicity-ctor", 8, "accepted-name sets for multiplicity objects")
     report.require("reuse-fresh", 10, "fresh objects for the reuse settings")
